@@ -238,7 +238,7 @@ pub fn plan(prop: &str, tier: &str) -> Option<Plan> {
                 s.push(e1(prop, "u32", H_GOOD, 200, full, &[], 130, 1, 1, "chk", 600.0));
                 s.push(e1(prop, "u32", H_GOOD, 0, "mut+ch0+shape", &[], 31, 3, 1, "chk", 900.0));
                 for &hk in &[H_GOOD, H_LOW] {
-                    s.push(e2(prop, "u32", hk, "look1+mut+ch0+shape2", &[], 6, "chk", 900.0));
+                    s.push(e2(prop, "u32", hk, "look1+mut+ch0+shape2", &[], if hk == H_LOW { 5 } else { 6 }, "chk", 900.0));
                     s.push(e2(prop, "tk", hk, "look1+mut+ch0+shape2", &[], 5, "chk", 900.0));
                 }
                 for &hk in &[H_CONST, H_TAG] {
@@ -263,7 +263,7 @@ pub fn plan(prop: &str, tier: &str) -> Option<Plan> {
                     s.push(e1(prop, "u32", hk, 0, "borrow", &[], 300, 1, 0, "chk", 900.0));
                     s.push(e1(prop, "u32", hk, 0, "mut1+shape/borrow", &[], 64, 2, 1, "chk", 900.0));
                 }
-                bounds = json!({"E7": "growth path to 10^6 elements (u32 with HGood / HTag; 3*10^4 with the 4-valued HLow, 3*10^3 with HConst, whose probe sequences are linear in the size; 2*10^5 Tk) with a mixed call menu against the reference", "E1": "d<=1 at N=130 (4 hashers x initial capacities {0,1,4,29,200} x {u32,Tk}); d<=2 at N=64; d<=3 at N=31", "E2": "fixpoint over u=6 (HGood,HLow) / u=5 (HConst,HTag) keys; full alphabet at u=3; ZST"});
+                bounds = json!({"E7": "growth path to 10^6 elements (u32 with HGood / HTag; 3*10^4 with the 4-valued HLow, 3*10^3 with HConst, whose probe sequences are linear in the size; 2*10^5 Tk) with a mixed call menu against the reference", "E1": "d<=1 at N=130 (4 hashers x initial capacities {0,1,4,29,200} x {u32,Tk}); d<=2 at N=64; d<=3 at N=31", "E2": "fixpoint over u=6 (HGood) / u=5 (HLow,HConst,HTag) keys; full alphabet at u=3; ZST"});
             }
         }
         "C02" => {
@@ -303,7 +303,7 @@ pub fn plan(prop: &str, tier: &str) -> Option<Plan> {
                 s.push(e1(prop, "big", H_GOOD, 0, a1, &fl, 130, 1, 1, "chk", 900.0));
                 s.push(e1(prop, "big", H_LOW, 0, a2, &fl, 40, 2, 1, "chk", 900.0));
                 for &hk in &[H_GOOD, H_LOW] {
-                    s.push(e2(prop, "u32", hk, "look1+mut+ch0+shape2", &fl, 6, "chk", 900.0));
+                    s.push(e2(prop, "u32", hk, "look1+mut+ch0+shape2", &fl, if hk == H_LOW { 5 } else { 6 }, "chk", 900.0));
                 }
                 s.push(e2(prop, "u32", H_TAG, "look1+mut+ch0+shape2", &fl, 5, "chk", 900.0));
                 for st in [0, 2, 3, 8] {
@@ -355,7 +355,7 @@ pub fn plan(prop: &str, tier: &str) -> Option<Plan> {
                 s.push(as_set(e1(prop, "big", H_GOOD, 0, "skey+sshape", &fl, 130, 1, 1, "chk", 900.0)));
                 s.push(e1(prop, "u32", H_GOOD, 0, "mut+ch0+shape", &fl, 31, 3, 1, "chk", 900.0));
                 for &hk in &[H_GOOD, H_LOW] {
-                    s.push(e2(prop, "u32", hk, "look1+mut+ch0+shape2", &fl, 6, "chk", 900.0));
+                    s.push(e2(prop, "u32", hk, "look1+mut+ch0+shape2", &fl, if hk == H_LOW { 5 } else { 6 }, "chk", 900.0));
                 }
                 s.push(e2(prop, "u32", H_CONST, "look1+mut+ch0+shape2", &fl, 5, "chk", 900.0));
                 s.push(e2(prop, "zst", H_GOOD, "look+mut+ch1+bulk2+shape2", &fl, 1, "chk", 100.0));
@@ -400,7 +400,7 @@ pub fn plan(prop: &str, tier: &str) -> Option<Plan> {
                 s.push(e1(prop, "big", H_GOOD, 0, "mut1+ch0+shape+cap+fill", &fl, 130, 1, 1, "chk", 900.0));
                 s.push(e1(prop, "u32", H_GOOD, 0, "mut1+ch0+shape+fill/mut1+ch0+cap+fill+clone", &fl, 31, 3, 1, "chk", 900.0));
                 for &hk in &[H_GOOD, H_LOW] {
-                    s.push(e2(prop, "u32", hk, "mut1+ch0+shape2+fill", &fl, 6, "chk", 900.0));
+                    s.push(e2(prop, "u32", hk, "mut1+ch0+shape2+fill", &fl, if hk == H_LOW { 5 } else { 6 }, "chk", 900.0));
                 }
                 s.push(e2(prop, "u32", H_CONST, "mut1+ch0+shape2+fill", &fl, 5, "chk", 900.0));
                 s.push(e2(prop, "zst", H_GOOD, "mut+ch1+bulk2+shape2+fill", &fl, 1, "chk", 100.0));
@@ -446,8 +446,9 @@ pub fn plan(prop: &str, tier: &str) -> Option<Plan> {
             } else {
                 for &prof in &["asan", "chk"] {
                     for &hk in &HS4 {
-                        s.push(e1(prop, "tk", hk, 0, "look1+mut+ch1+bulk+shape", &fl, 130, 1, 1, prof, 900.0));
-                        s.push(e1(prop, "tk", hk, 0, a, &fl, 33, 2, 1, prof, 1200.0));
+                        let slow = prof == "asan" && (hk == H_LOW || hk == H_CONST);
+                        s.push(e1(prop, "tk", hk, 0, "look1+mut+ch1+bulk+shape", &fl, if slow { 64 } else { 130 }, 1, 1, prof, 900.0));
+                        s.push(e1(prop, "tk", hk, 0, a, &fl, if slow { 20 } else { 33 }, 2, 1, prof, 1200.0));
                     }
                     s.push(e2(prop, "tk", H_GOOD, "look1+mut+ch0+shape2+iterlite", &fl, if prof == "asan" { 4 } else { 5 }, prof, 1200.0));
                     s.push(e2(prop, "tk", H_CONST, "look1+mut+ch0+shape2", &fl, 4, prof, 1200.0));
@@ -460,14 +461,14 @@ pub fn plan(prop: &str, tier: &str) -> Option<Plan> {
                     s.push(as_set(e2(prop, "tk", H_LOW, "skey+sshape2", &fl, 4, prof, 1200.0)));
                     s.push(as_set(e2(prop, "zst", H_GOOD, "skey+sshape2", &fl, 1, prof, 100.0)));
                     s.push(e1(prop, "big", H_GOOD, 0, "look1+mut+ch1+bulk+shape+iterlite", &fl, 130, 1, 1, prof, 900.0));
-                    s.push(e1(prop, "big", H_LOW, 0, a, &fl, 33, 2, 1, prof, 1200.0));
+                    s.push(e1(prop, "big", H_LOW, 0, a, &fl, if prof == "asan" { 20 } else { 33 }, 2, 1, prof, 1200.0));
                     s.push(as_set(e1(prop, "big", H_LOW, 0, "skey+sshape+siter", &fl, 64, 1, 1, prof, 900.0)));
                     s.push(e2(prop, "big", H_GOOD, "look1+mut+ch0+shape2+iterlite", &fl, 4, prof, 1200.0));
                     s.push(sweep(prop, "u32", H_GOOD, 1_000_000, &["cursor", "cheap"], &[("drain_old", "1"), ("audit_every", "0")], prof, 900.0));
                     s.push(sweep(prop, "tk", H_LOW, 3_000, &["cursor", "cheap"], &[("drain_old", "1"), ("audit_every", "0")], prof, 900.0));
                     s.push(sweep(prop, "big", H_GOOD, 10_000, &["cursor", "cheap"], &[("drain_old", "1"), ("audit_every", "0")], prof, 900.0));
                 }
-                bounds = json!({"large elements": "1 KiB, 64-byte-aligned elements: d<=1 at N=130, d<=2 at N=33, E2 u=4", "E1": "Tk: d<=1 at N=130, d<=2 at N=33 (4 hashers, both profiles)", "E2": "fixpoint u=5/4 (Tk), ZST"});
+                bounds = json!({"large elements": "1 KiB, 64-byte-aligned elements: d<=1 at N=130, d<=2 at N=33, E2 u=4", "E1": "Tk: d<=1 at N=130, d<=2 at N=33 (4 hashers; N=64 / N=20 for the clustering hashers under asan)", "E2": "fixpoint u=5/4 (Tk), ZST"});
             }
         }
         "C06" => {
@@ -530,7 +531,7 @@ pub fn plan(prop: &str, tier: &str) -> Option<Plan> {
                 s.push(e2(prop, "u32", H_CONST, "mut1+ch0+shape2+iter", &[], 4, "chk", 1200.0));
                 s.push(e2(prop, "zst", H_GOOD, "mut+bulk2+shape2+iter", &[], 1, "chk", 100.0));
                 for &hk in &HS4 {
-                    s.push(as_set(e1(prop, "u32", hk, 0, "skey+sshape+siter/siter", &[], 64, 2, 1, "chk", 1200.0)));
+                    s.push(as_set(e1(prop, "u32", hk, 0, "skey+sshape+siter/siter", &[], if hk == H_GOOD || hk == H_TAG { 64 } else { 40 }, 2, 1, "chk", 1200.0)));
                 }
                 s.push(as_set(e1(prop, "tk", H_LOW, 0, "siter", &[], 130, 1, 0, "chk", 600.0)));
                 s.push(as_set(e2(prop, "u32", H_GOOD, "skey+sshape2+siter", &[], 5, "chk", 1200.0)));
